@@ -1,6 +1,6 @@
 // implrun: runs the implementation side of one property's correspondence
 // check and writes Coq shard files plus cases.jsonl into the output directory.
-package main
+package run
 
 import (
 	"bufio"
@@ -26,7 +26,7 @@ type caseRec struct {
 	Desc       any    `json:"desc"`
 }
 
-func main() {
+func Main() {
 	if len(os.Args) < 2 {
 		fmt.Println(strings.Join(reg.IDs(), " "))
 		return
